@@ -340,14 +340,35 @@ class Gen:
         if depth <= 0:
             return rng.weighted(leaf)()
         comp = [
-            (lambda: ["list", [self.value(depth - 1, True) for _ in range(rng.randint(0, 4))]], 3),
-            (lambda: ["tuple", [self.value(depth - 1, True) for _ in range(rng.randint(0, 3))]], 2),
-            (lambda: gen_numeric_seq(rng, rng.choice(["list", "tuple"])), 3),
+            (lambda: ["list", self.sanitize_seq([self.value(depth - 1, True) for _ in range(rng.randint(0, 4))])], 3),
+            (lambda: ["tuple", self.sanitize_seq([self.value(depth - 1, True) for _ in range(rng.randint(0, 3))])], 2),
+            (lambda: (lambda k: [k, self.sanitize_seq(gen_numeric_seq(rng, k)[1])])(rng.choice(["list", "tuple"])), 3),
             (lambda: ["set", self.set_items()], 2),
             (lambda: ["dict", self.entries(depth - 1, True, rng.randint(0, 4))], 3),
             (lambda: ["obj", rng.choice(["SA", "SB", "SC"]), self.entries(depth - 1, False, rng.randint(0, 4))], 3),
         ]
         return rng.weighted(leaf + comp + comp)()
+
+    @staticmethod
+    def sanitize_seq(items):
+        """keep all-numeric sequences inside the property's quantifier: integers within int64,
+        no uint64 NumPy scalars (NumPy promotes uint64+int64 to float64), and — because the
+        ndarray fast path promotes int+float to float64 — integers within 2**53 when a float is
+        present (the int/float precision loss beyond that is a recorded finding, probed separately)"""
+        if not items or not all(numeric(e) for e in items):
+            return items
+        has_float = any(e[-1][0] == "float" for e in items)
+        lim = 2 ** 53 if has_float else 2 ** 63 - 1
+        out = []
+        for e in items:
+            if e[-1][0] == "int":
+                v = max(-lim, min(lim, int(e[-1][1])))
+                e = ["scalar", ["int", str(v)]] if e[0] == "scalar" or e[1] == "uint64" else ["np", e[1], ["int", str(v)]]
+                if e[0] == "np":
+                    info = np.iinfo(e[1])
+                    e = ["np", e[1], ["int", str(max(info.min, min(info.max, v)))]]
+            out.append(e)
+        return out
 
     def set_items(self):
         rng = self.rng
